@@ -176,6 +176,9 @@ class Sym:
             if loc in p.store:
                 return p.store[loc], None
             return Aff.sym(loc), None
+        if k == 'constindex' and not proj.get('from_end'):
+            s = v.single() if isinstance(v, Aff) else None
+            return Aff.sym(('idx', s if s is not None else ('expr', repr(v)), repr(Aff.const(int(proj.get('offset', 0)))))), None
         if k == 'index':
             s = v.single()
             iv = self.local(p, proj['local'])
@@ -288,6 +291,10 @@ class Sym:
         if c is not None and c.path == 'std::ops::Try::branch' and len(args) == 1 and isinstance(args[0], Aff) and args[0].single() is not None:
             # `x?`: the Continue payload is the Some / Ok payload of x
             return Aff.sym(('try', args[0].single(), 'Ok' if 'Result' in (c.resolved or '') else 'Some'))
+        if c is not None and c.name == 'contains' and 'ops::Range' in c.path and len(args) == 2 and isinstance(args[0], Agg) and len(args[0].fields) == 2 \
+                and all(isinstance(f, Aff) for f in args[0].fields) and isinstance(args[1], Aff):
+            # (lo..hi).contains(&x): kept structured so that rules can read  lo <= x < hi  off a path condition
+            return Aff.sym(('inrange', args[0].fields[0], args[0].fields[1], args[1]))
         if c is not None and is_buffer_call(self.prog, c):
             # the reader buffer: one symbol per buffer content (bumped by every call that alters the buffer)
             return Aff.sym(('buffer', p.env.get('#buf', 0)))
@@ -356,6 +363,17 @@ class Sym:
                     tgt = next((tg for v, tg in t.targets if v == d.c), t.otherwise)
                     work.append((tgt, p, False))
                 else:
+                    # a second branch on a value this path has already branched on takes the same way
+                    prev = [tk for (_, d0, tk) in p.conds if isinstance(d0, Aff) and isinstance(d, Aff) and d0 == d]
+                    if prev:
+                        tk = prev[-1]
+                        tgt = next((tg for v, tg in t.targets if v == tk), None) if tk is not None else None
+                        if tgt is None:
+                            tgt = t.otherwise if (tk is None or tk not in [v for v, _ in t.targets]) else None
+                        if tgt is not None:
+                            p.conds.append((x, d, tk))
+                            work.append((tgt, p, False))
+                            continue
                     for v, tg in arms:
                         if b.blocks[tg].term.k == 'unreachable' and not b.blocks[tg].stmts:
                             continue
@@ -404,18 +422,22 @@ def linear_preds(conds, base):
     k0, v0 = items[0]
     for (_, d, taken) in conds:
         s1 = d.single() if isinstance(d, Aff) else None
-        if not (isinstance(s1, tuple) and s1[0] == 'cmp'):
-            continue
-        op, a, c = s1[1], s1[2], s1[3]
-        diff = a - c
-        co = diff.t.get(k0, 0)
-        if co == 0 or co % v0 != 0:
-            continue
-        alpha = co // v0
-        rest = diff - base.scale(alpha)
-        if rest.t:
-            continue
-        out.append((op, alpha, rest.c, taken))
+        cmps = []
+        if isinstance(s1, tuple) and s1[0] == 'cmp':
+            cmps.append((s1[1], s1[2], s1[3], taken))
+        elif isinstance(s1, tuple) and s1[0] == 'inrange' and (taken is None or taken != 0):
+            cmps.append(('Ge', s1[3], s1[1], 1))
+            cmps.append(('Lt', s1[3], s1[2], 1))
+        for (op, a, c, tk) in cmps:
+            diff = a - c
+            co = diff.t.get(k0, 0)
+            if co == 0 or co % v0 != 0:
+                continue
+            alpha = co // v0
+            rest = diff - base.scale(alpha)
+            if rest.t:
+                continue
+            out.append((op, alpha, rest.c, tk))
     return out
 
 
